@@ -132,6 +132,50 @@ def run(ctx: Ctx):
         if len(classes - {'limit'}) == 1 and 'limit' in classes:
             stats['groups_with_limit_outcomes'] += 1
         stats['groups'] += 1
+    # every refuting branch must be SATURATED under every option / mode / tie-break order (that is what makes the
+    # completeness theorem — closed and saturated-open exclude each other — apply to the run); where one is not, look
+    # for an argument around the skipped rule instance on which the verdict really depends on the options
+    sat_reqs, sat_where = [], []
+    for lg, g in groups:
+        for sd, i, desc in g:
+            o = outs[sd][i]
+            if 'error' in o or verdict(o) != 'refuted':
+                continue
+            brs = o['final'].split(' || ')
+            for bi, (b, q, wl) in enumerate(zip(brs, o['quitflags'], o.get('wlimits') or [False] * len(brs))):
+                if b.endswith('! open') and not q and not wl:
+                    sat_reqs.append(f'saturated {lg} ## {b.split(" ! ")[0]}')
+                    sat_where.append((lg, sd, i, desc, bi))
+    stats['refuting-branches-checked-for-saturation'] = len(sat_reqs)
+    unsat = collections.OrderedDict()
+    if sat_reqs:
+        try:
+            for (lg, sd, i, desc, bi), a in zip(sat_where, drive(sat_reqs)):
+                if a.startswith('ok'):
+                    stats['refuting-branches-saturated'] += 1
+                elif a.startswith('unsat'):
+                    unsat.setdefault((lg, sd, i), (desc, bi, a))
+        except InfraError as e:
+            ctx.notes.append(f'driver unavailable for the saturation pass: {e}'[:200])
+    if unsat:
+        from .c02 import clause_of
+        seen_kinds = collections.Counter()
+        for (lg, sd, i), (desc, bi, a) in unsat.items():
+            clause, rule = clause_of(a)
+            if seen_kinds[(lg, clause, rule)] >= 2:
+                continue
+            seen_kinds[(lg, clause, rule)] += 1
+            j, o = by_seed[sd][i], outs[sd][i]
+            witness = around_unsaturated(lg, j, o, bi, a, ms)
+            rep = dict(argument=tabrun.arg_text(j), variant=desc, order_seed=sd, mode=j['mode'], branch_index=bi, saturation=a[:400])
+            if witness:
+                rep.update(witness)
+                ctx.fail(f'C09:verdict-differs:{lg}', f'{lg}: a rule instance is skipped under [{desc}] ({a[:90]}); on a neighbouring argument the '
+                         f'verdict depends on the options', rep, found_input=True)
+            else:
+                ctx.fail(f'C09:unsaturated-refutation:{lg}:{clause}:{rule}', f'{lg}: under [{desc}, seed {sd}] the search stops with a refuting branch '
+                         f'that is not saturated ({a[:120]}); the exclusivity theorem does not cover this run; no argument with differing verdicts found',
+                         dict(rep, theorem='C09_outcomes_exclusive (hypothesis saturatedB)'), found_input=False)
     if not res.ok and not ctx.violations:
         for lgname, thm in getattr(res, 'failed', []) or [('?', '?')]:
             ctx.fail(f'C09:lean:{lgname}:{thm}', f'Lean obligation {lgname}:{thm} no longer checks; the sweep found no conflicting runs',
@@ -149,6 +193,68 @@ def run(ctx: Ctx):
         sd, i, desc = g[0]
         if 'error' not in outs[sd][i]:
             ctx.sample(dict(logic=lg, argument=tabrun.arg_text(by_seed[sd][i]), verdict=verdict(outs[sd][i]), variants=len(g)))
+
+
+def around_unsaturated(lg, job, out, bi, answer, ms):
+    """arguments around a skipped rule instance: the original premises plus one premise that contradicts (or repeats) a
+    component of the node whose instance is missing — run under the whole option × mode matrix; returns the two conflicting
+    runs if the verdict differs"""
+    import re
+    from pytableaux.lang import Operated, Operator as O, Quantified
+    m = re.search(r'node=(\d+)', answer)
+    if not m:
+        return None
+    nodes = out['final'].split(' || ')[bi].split(' ! ')[0].split(' ; ')
+    try:
+        parts = nodes[int(m.group(1))].split()
+        assert parts[0] == 'n'
+        s = wire.dec_sent(' '.join(parts[1:-2]))
+    except Exception:  # noqa
+        return None
+    prem = [wire.dec_sent(x) for x in job['premises']]
+    conc = wire.dec_sent(job['conclusion'])
+    comps = []
+    def walk(x, depth=0):
+        if isinstance(x, Operated):
+            for y in x.operands:
+                if y not in comps:
+                    comps.append(y)
+                if depth < 2:
+                    walk(y, depth + 1)
+        elif isinstance(x, Quantified) and depth < 2:
+            walk(x.sentence, depth + 1)
+    walk(s)
+    extra = []
+    for c in comps[:4]:
+        if c.variables:
+            continue
+        extra += [c, Operated(O.Negation, (c,))]
+        if registry_modal(lg):
+            extra += [Operated(O.Necessity, (c,)), Operated(O.Necessity, (Operated(O.Negation, (c,)),))]
+    jobs, desc = [], []
+    variants = [(prem + [x], conc) for x in extra] + [(prem, c) for c in comps[:4] if not c.variables]
+    for pv, cv in variants:                    # one group = one argument (as a premise SET) under options × modes × premise orders
+        for order in ('as-given', 'reversed'):
+            for oi, mode in MODES:
+                jobs.append(tabrun.job_for(len(jobs), lg, pv if order == 'as-given' else list(reversed(pv)), cv, opts=tabrun.OPTS[oi], mode=mode, max_steps=ms))
+                desc.append(f'opts={oi} {mode} premises={order}')
+    if not jobs:
+        return None
+    outs = tabrun.run_jobs(jobs, order_seed=0)
+    n = 2 * len(MODES)
+    for k in range(0, len(jobs), n):
+        vs = [(verdict(o) if 'error' not in o else 'error', jobs[k + t], desc[k + t]) for t, o in enumerate(outs[k:k + n])]
+        cl = {v for v, *_ in vs}
+        if {'valid', 'refuted'} <= cl:
+            a = next(x for x in vs if x[0] == 'valid'); b = next(x for x in vs if x[0] == 'refuted')
+            return dict(valid_run=dict(argument=tabrun.arg_text(a[1]), mode=a[1]['mode'], order_seed=0),
+                        refuted_run=dict(argument=tabrun.arg_text(b[1]), mode=b[1]['mode'], order_seed=0))
+    return None
+
+
+def registry_modal(lg) -> bool:
+    from pytableaux.logics import registry
+    return bool(registry(lg).Meta.modal)
 
 
 def replay(data) -> int:
